@@ -355,6 +355,58 @@ pub fn run(thorough: bool, rest: &[String]) {
         }
         run_h(&mut rep, RunCfg { scenarios: scs, probes: vec![std::sync::Arc::new(StoredVersionsProbe)], pools: vec![1], time_budget_s: if thorough { 900 } else { 15 }, max_states: if thorough { 100_000 } else { 4_000 }, stop_on_violation: true });
     }
+    // long chains read cold: for EVERY chain length 1..=N of successive single-step edits of one array (insert at
+    // the front, at the back, in the middle, remove, swap - cycling), a freshly opened replica on the same storage
+    // must read exactly the version submitted last; capacities 1 and 2 (the walk is much longer than the cache)
+    {
+        let n_max: usize = if thorough { 96 } else { 40 };
+        let mut long_checks = 0u64;
+        for cap in ["1", "2"] {
+            std::env::set_var("MELDA_ARRAYDESCRIPTORS_CACHE_CAP", cap);
+            let capv = cap.to_string();
+            let res = std::panic::catch_unwind(move || -> (u64, Option<Value>) {
+                use std::sync::{Arc, RwLock};
+                let ad: Arc<RwLock<Box<dyn melda::adapter::Adapter>>> = Arc::new(RwLock::new(Box::new(melda::memoryadapter::MemoryAdapter::new())));
+                let w = melda::melda::Melda::new(ad.clone()).expect("new");
+                let mut cur: Vec<String> = vec!["a".into(), "b".into(), "c".into()];
+                let mut n = 0u64;
+                for k in 0..n_max {
+                    match k % 5 {
+                        0 => cur.insert(0, format!("f{}", k)),
+                        1 => cur.push(format!("t{}", k)),
+                        2 => { let m = cur.len() / 2; cur.insert(m, format!("m{}", k)) }
+                        3 => { let m = cur.len() / 3; cur.remove(m); }
+                        _ => { let l = cur.len(); cur.swap(0, l - 1) }
+                    }
+                    let doc = json!({"l\u{266D}": cur.iter().map(|i| json!({"_id": i, "v": 1})).collect::<Vec<_>>()});
+                    w.update(doc.as_object().unwrap().clone()).expect("update");
+                    w.commit(None).expect("commit");
+                    let cold = melda::melda::Melda::new(ad.clone()).expect("reopen");
+                    let got = cold.read(None).expect("read");
+                    n += 1;
+                    // (read() adds the root identifier; the comparison is on the document's only field)
+                    if got.get("l\u{266D}") != doc.get("l\u{266D}") || got.len() != 2 {
+                        return (n, Some(json!({"chain_length": k + 1, "array_cache_cap": capv, "submitted": doc, "cold_read": got})));
+                    }
+                }
+                (n, None)
+            });
+            match res {
+                Ok((n, bad)) => {
+                    long_checks += n;
+                    if let Some(d) = bad {
+                        rep.violations.push(Violation { property: "C16".into(), signature: "C16:long-chain-cold-read".into(), scenario: "long-chain".into(), history: vec![], detail: d });
+                    }
+                }
+                Err(e) => {
+                    let m = e.downcast_ref::<String>().cloned().or_else(|| e.downcast_ref::<&str>().map(|s| s.to_string())).unwrap_or_default();
+                    rep.violations.push(Violation { property: "C16".into(), signature: "C16:long-chain-cold-read-panicked".into(), scenario: "long-chain".into(), history: vec![], detail: json!({"array_cache_cap": cap, "panic": m, "input": format!("chain of up to {} single-step edits of l♭ starting from [a,b,c] (front/back/middle insert, remove, swap cycling), cold reopen + read after every commit", n_max)}) });
+                }
+            }
+        }
+        rep.add_u64("evaluations", long_checks);
+        rep.set("long_chain_cold_reads", json!({"max_chain_length": n_max, "array_cache_caps": ["1", "2"], "cold_reads_compared": long_checks}));
+    }
     std::env::remove_var("MELDA_ARRAYDESCRIPTORS_CACHE_CAP");
     rep.coverage.remove("_outcomes");
     // the cache shortcut of the chain walk under every schedule of the parallel readers (engine S):
